@@ -475,23 +475,102 @@ theorem merge_per_chromosome (d n : Nat) (ivs : List Iv) (hs : ivs.Pairwise (fun
 
 example : [({ c := 0, s := 3, e := 5 } : Iv), { c := 1, s := 0, e := 2 }].Pairwise (fun a b => a.c ≤ b.c) := by decide
 
-/-- **C10.merge_checked** — the in-memory merge entry points with their restored validation: entries sorted in
-genome order that all lie inside their chromosomes give exactly the per-chromosome single-contig merge; if some
-entry does not lie inside its chromosome an error is raised (nothing is merged silently). -/
-theorem merge_checked (d : Nat) (sizes : List Nat) (ivs : List Iv) (hs : ivs.Pairwise (fun a b => a.c ≤ b.c)) :
-    ((∀ iv ∈ ivs, iv.valid sizes = true) → mergeChecked d sizes ivs = specMerge d sizes.length ivs) ∧
-    ((∃ iv ∈ ivs, iv.valid sizes = false) → mergeChecked d sizes ivs = none) := by
+theorem sortedAdj_iff (l : List Nat) : sortedAdj l = true ↔ l.Pairwise (· ≤ ·) := by
+  induction l with
+  | nil => simp [sortedAdj]
+  | cons x r ih =>
+    cases r with
+    | nil => simp [sortedAdj]
+    | cons y r' =>
+      simp only [sortedAdj, Bool.and_eq_true, decide_eq_true_eq, ih, List.pairwise_cons]
+      constructor
+      · intro ⟨hxy, hy, hr⟩
+        refine ⟨?_, hy, hr⟩
+        intro a ha
+        rcases List.mem_cons.mp ha with rfl | ha
+        · exact hxy
+        · have := hy a ha; omega
+      · intro ⟨hx, hy, hr⟩
+        exact ⟨hx y (List.mem_cons_self ..), hy, hr⟩
+
+theorem startsSorted_of_pairwise (l : List (Nat × Nat)) (h : l.Pairwise (fun a b => a.1 ≤ b.1)) : startsSorted l = true := by
+  induction l with
+  | nil => rfl
+  | cons x r ih =>
+    cases r with
+    | nil => rfl
+    | cons y r' =>
+      have h' := List.pairwise_cons.mp h
+      simp only [startsSorted, Bool.and_eq_true, decide_eq_true_eq]
+      exact ⟨h'.1 y (List.mem_cons_self ..), ih h'.2⟩
+
+/-- **C10.merge_checked_iff** — the in-memory merge entry points (`Geometry.merge_intervals`,
+`GenomicIntervalsFull.merged`), with NO assumption on the input: they give a result exactly when every
+entry lies inside its chromosome and the entries are in genome order (non-decreasing start in
+concatenated coordinates), and that result is the per-chromosome single-contig merge; in every other
+case an error is raised — nothing is merged silently (in particular not entries whose chromosomes are
+not contiguous, which the shipped grouping attributed to the wrong chromosome). -/
+theorem merge_checked_iff (d : Nat) (sizes : List Nat) (ivs : List Iv) :
+    (((∀ iv ∈ ivs, iv.valid sizes = true) ∧ (ivs.map (fun iv => offset sizes iv.c + iv.s)).Pairwise (· ≤ ·)) →
+      ∃ out, mergeChecked d sizes ivs = some out ∧ specMerge d sizes.length ivs = some out) ∧
+    (¬ ((∀ iv ∈ ivs, iv.valid sizes = true) ∧ (ivs.map (fun iv => offset sizes iv.c + iv.s)).Pairwise (· ≤ ·)) →
+      mergeChecked d sizes ivs = none) := by
   constructor
-  · intro hv
+  · intro ⟨hv, hs⟩
     have hall : ivs.all (fun iv => iv.valid sizes) = true := List.all_eq_true.mpr hv
-    simp only [mergeChecked, hall, if_true]
-    exact merge_per_chromosome d sizes.length ivs hs (fun iv h => ((valid_iff sizes iv).mp (hv iv h)).1)
-  · intro ⟨iv, hm, hf⟩
-    have : ivs.all (fun iv => iv.valid sizes) = false := by
-      cases h : ivs.all (fun iv => iv.valid sizes) with
-      | false => rfl
-      | true => have := List.all_eq_true.mp h iv hm; rw [hf] at this; cases this
-    simp [mergeChecked, this]
+    have hadj := (sortedAdj_iff _).mpr hs
+    rw [List.pairwise_map] at hs
+    have hc : ivs.Pairwise (fun a b => a.c ≤ b.c) := by
+      apply List.Pairwise.imp_of_mem _ hs
+      intro a b ha hb hab
+      obtain ⟨_, ha2, _⟩ := (valid_iff sizes a).mp (hv a ha)
+      obtain ⟨hb1, hb2, _⟩ := (valid_iff sizes b).mp (hv b hb)
+      refine Classical.byContradiction fun hlt => ?_
+      have := offset_add_size_le sizes b.c a.c (by omega) (by have := ((valid_iff sizes a).mp (hv a ha)).1; omega)
+      omega
+    have hper := merge_per_chromosome d sizes.length ivs hc (fun iv h => ((valid_iff sizes iv).mp (hv iv h)).1)
+    simp only [mergeChecked, hall, hadj, Bool.and_self, if_true]
+    rw [hper]
+    -- the per-chromosome merges all succeed: within a chromosome the starts are sorted
+    have hsome : ∀ c ∈ List.range sizes.length, (mergeChrom d c (ivs.filter (fun iv => iv.c = c))).isSome = true := by
+      intro c _
+      have hf : ((ivs.filter (fun iv => iv.c = c)).map (fun iv => (iv.s, iv.e))).Pairwise (fun a b => a.1 ≤ b.1) := by
+        rw [List.pairwise_map]
+        apply List.Pairwise.imp_of_mem _ (hs.filter _)
+        intro a b ha hb hab
+        have ha' : a.c = c := by simpa using (List.mem_filter.mp ha).2
+        have hb' : b.c = c := by simpa using (List.mem_filter.mp hb).2
+        rw [ha', hb'] at hab
+        simp only []
+        omega
+      simp [mergeChrom, merge1Checked, startsSorted_of_pairwise _ hf]
+    have := (omap_isSome_iff _ _).mpr hsome
+    simp only [specMerge]
+    cases ho : omap (fun c => mergeChrom d c (ivs.filter (fun iv => iv.c = c))) (List.range sizes.length) with
+    | none => rw [ho] at this; simp at this
+    | some ms => exact ⟨ms.flatten, rfl, rfl⟩
+  · intro hn
+    simp only [mergeChecked]
+    by_cases hall : ivs.all (fun iv => iv.valid sizes) = true
+    · have hv := List.all_eq_true.mp hall
+      have : sortedAdj (ivs.map (fun iv => offset sizes iv.c + iv.s)) = false := by
+        cases h : sortedAdj (ivs.map (fun iv => offset sizes iv.c + iv.s)) with
+        | false => rfl
+        | true => exact absurd ⟨hv, (sortedAdj_iff _).mp h⟩ hn
+      simp [this]
+    · simp [hall]
+
+example : (∀ iv ∈ [({ c := 0, s := 3, e := 5 } : Iv), { c := 1, s := 0, e := 2 }], iv.valid [5, 5] = true) ∧
+    ([({ c := 0, s := 3, e := 5 } : Iv), { c := 1, s := 0, e := 2 }].map (fun iv => offset [5, 5] iv.c + iv.s)).Pairwise (· ≤ ·) := by
+  decide
+
+/-- the grouping alone (without the genome-order check) is unsound on non-contiguous chromosomes: witness for the
+rule of commits 5ae8cf0..9c24e3c, where `groupby`'s first-key = last-key fast path made ONE group of chr1, chr2, chr1 -/
+theorem merge_unsorted_unsound :
+    mergeChecked 0 [5, 5] [{ c := 0, s := 0, e := 2 }, { c := 1, s := 0, e := 1 }, { c := 0, s := 1, e := 3 }] = none ∧
+    specMerge 0 2 [{ c := 0, s := 0, e := 2 }, { c := 1, s := 0, e := 1 }, { c := 0, s := 1, e := 3 }] =
+      some [{ c := 0, s := 0, e := 3 }, { c := 1, s := 0, e := 1 }] := by
+  decide
 
 /-! ### values under intervals -/
 
@@ -876,5 +955,401 @@ theorem name_lookup_partial (names : List (List Nat)) (hnd : (names.map asciiHas
     · simp at hq
 
 example : ([[99, 104, 114, 49], [99, 104, 114, 49, 49], [99, 104, 114, 49, 95, 97]].map asciiHash).Nodup := by decide
+
+
+/-! ### round 4: views, bins, location mapping, pinning and completeness -/
+
+theorem zip_flatten {α β} (A : List (List α)) : ∀ (B : List (List β)), A.map List.length = B.map List.length →
+    A.flatten.zip B.flatten = (List.zipWith List.zip A B).flatten := by
+  induction A with
+  | nil => intro B h; cases B <;> simp_all
+  | cons a A ih =>
+    intro B h
+    cases B with
+    | nil => simp at h
+    | cons b B =>
+      simp only [List.map_cons, List.cons.injEq] at h
+      simp only [List.flatten_cons, List.zipWith_cons_cons]
+      rw [List.zip_append h.1, ih B h.2]
+
+/-- **C10.toDict_flatten_inverse** — cutting the genome-wide array back per chromosome (`to_dict`, `track[name]`) and
+concatenating the per-chromosome arrays (`from_dict`) are inverse to each other: `toDict`/`extractChrom` are pinned by `List.flatten`. -/
+theorem toDict_flatten_inverse {α} (arrays : List (List α)) :
+    toDict (arrays.map List.length) arrays.flatten = arrays ∧
+    (∀ (sizes : List Nat) (dense : List α), dense.length = total sizes → (toDict sizes dense).flatten = dense) := by
+  refine ⟨?_, fun sizes dense h => flatten_toDict sizes dense h⟩
+  induction arrays with
+  | nil => rfl
+  | cons a as ih =>
+    rw [List.map_cons, toDict_cons, List.flatten_cons]
+    simp [ih]
+
+theorem size_lengths {α} (arrays : List (List α)) (c : Nat) :
+    size (arrays.map List.length) c = (arrays.getD c []).length := by
+  simp [size, List.getD_eq_getElem?_getD, List.getElem?_map]
+  cases arrays[c]? <;> simp
+
+theorem flatten_getElem? {α} (arrays : List (List α)) (c p : Nat) (hc : c < arrays.length)
+    (hp : p < (arrays.getD c []).length) :
+    arrays.flatten[offset (arrays.map List.length) c + p]? = (arrays.getD c [])[p]? := by
+  have h := flatten_drop_take arrays c p 1 hc (by omega)
+  have h1 : ∀ (l : List α) (i : Nat), (l.drop i).take 1 = (l[i]?).toList := by
+    intro l i
+    induction l generalizing i with
+    | nil => simp
+    | cons x xs ih =>
+      cases i with
+      | zero => simp
+      | succ i => simpa using ih i
+  rw [h1, h1] at h
+  cases ha : arrays.flatten[offset (arrays.map List.length) c + p]? <;>
+    cases hb : (arrays.getD c [])[p]? <;> simp_all
+
+/-- **C10.track_views_local** — `track[name]` is that chromosome's own array, `track[location]` the own array's value at the
+local position, and boolean indexing with a genome-wide mask is the concatenation over the chromosomes of each chromosome's
+own values under its own mask; values of neighbouring chromosomes never appear. -/
+theorem track_views_local (arrays : List (List Nat)) :
+    (∀ c, c < arrays.length → extractChrom (arrays.map List.length) arrays.flatten c = arrays.getD c []) ∧
+    (∀ c p, c < arrays.length → p < (arrays.getD c []).length →
+      extractAt (arrays.map List.length) arrays.flatten c p = (arrays.getD c [])[p]?) ∧
+    (∀ masks : List (List Nat), masks.map List.length = arrays.map List.length →
+      boolIndex arrays.flatten masks.flatten = (List.zipWith boolIndex arrays masks).flatten) := by
+  refine ⟨?_, ?_, ?_⟩
+  · intro c hc
+    have h := flatten_drop_take arrays c 0 (arrays.getD c []).length hc (by omega)
+    simp only [extractChrom, size_lengths]
+    simpa using h
+  · intro c p hc hp
+    have hfl : fromLocal (arrays.map List.length) c p = some (offset (arrays.map List.length) c + p) := by
+      have : p < size (arrays.map List.length) c := by rw [size_lengths]; exact hp
+      simp only [fromLocal]
+      rw [if_pos ⟨by simpa using hc, this⟩]
+    simp only [extractAt, hfl]
+    exact flatten_getElem? arrays c p hc hp
+  · intro masks hm
+    simp only [boolIndex]
+    rw [zip_flatten arrays masks hm.symm, List.filter_flatten, List.map_flatten]
+    congr 1
+    induction arrays generalizing masks with
+    | nil => simp
+    | cons a as ih =>
+      cases masks with
+      | nil => simp
+      | cons m ms =>
+        simp only [List.map_cons, List.cons.injEq] at hm
+        have := ih ms hm.2
+        simp only [List.zipWith_cons_cons, List.map_cons, List.cons.injEq]
+        exact ⟨rfl, this⟩
+
+theorem length_flatten_sum {α} (L : List (List α)) : L.flatten.length = (L.map List.length).sum := by
+  induction L with
+  | nil => rfl
+  | cons a L ih => simp [ih]
+
+/-- **C10.jaccard_counts_concat** — the intersection and union sizes `Geometry.jaccard` computes on the genome-wide masks are the
+sums over the chromosomes of the per-chromosome intersection / union sizes. -/
+theorem jaccard_counts_concat (A B : List (List Nat)) (h : A.map List.length = B.map List.length) :
+    interCount A.flatten B.flatten = (List.zipWith interCount A B).sum ∧
+    unionCount A.flatten B.flatten = (List.zipWith unionCount A B).sum := by
+  simp only [interCount, unionCount]
+  rw [zip_flatten A B h, List.filter_flatten, List.filter_flatten, length_flatten_sum, length_flatten_sum]
+  constructor <;>
+  · congr 1
+    clear h
+    induction A generalizing B with
+    | nil => simp
+    | cons a A ih =>
+      cases B with
+      | nil => simp
+      | cons b B =>
+        have := ih B
+        simp only [List.zipWith_cons_cons, List.map_cons, List.cons.injEq]
+        exact ⟨rfl, this⟩
+
+theorem size_nBins (b : Nat) (hb : 0 < b) (sizes : List Nat) (c : Nat) :
+    size (nBins b sizes) c = (size sizes c + b - 1) / b := by
+  simp only [size, nBins, List.getD_eq_getElem?_getD, List.getElem?_map]
+  cases sizes[c]? with
+  | some s => simp
+  | none =>
+    simp only [Option.map_none, Option.getD_none, Nat.zero_add]
+    exact (Nat.div_eq_of_lt (by omega)).symm
+
+theorem div_lt_bins (b p sz : Nat) (hb : 0 < b) (hp : p < sz) : p / b + 1 ≤ (sz + b - 1) / b := by
+  rw [Nat.le_div_iff_mul_le hb]
+  have := Nat.div_mul_le_self p b
+  rw [Nat.add_mul]
+  omega
+
+/-- **C10.binned_local** — `BinnedGenome.count` / `count_dict`: for locations inside their chromosomes and any bin size,
+every chromosome's bins count exactly that chromosome's own locations (`position // bin_size`); a location never lands
+in a neighbouring chromosome's bin, also not in the last, partial bin. -/
+theorem binned_local (b : Nat) (hb : 0 < b) (sizes : List Nat) (pts : List (Nat × Nat))
+    (hv : ∀ x ∈ pts, x.1 < sizes.length ∧ x.2 < size sizes x.1) :
+    binnedCounts b sizes pts = specBinned b sizes pts := by
+  let ivs : List Iv := pts.map (fun x => { c := x.1, s := x.2 / b, e := x.2 / b + 1 })
+  have hvalid : ∀ iv ∈ ivs, iv.valid (nBins b sizes) = true := by
+    intro iv hiv
+    obtain ⟨x, hx, rfl⟩ := List.mem_map.mp hiv
+    obtain ⟨h1, h2⟩ := hv x hx
+    have := div_lt_bins b x.2 _ hb h2
+    rw [valid_iff, size_nBins b hb]
+    have hlen : (nBins b sizes).length = sizes.length := by simp [nBins]
+    refine ⟨by rw [hlen]; exact h1, ?_, ?_⟩
+    · exact Nat.lt_of_lt_of_le (Nat.lt_succ_self _) this
+    · exact this
+  obtain ⟨hcl, _⟩ := cover_local (nBins b sizes) ivs hvalid
+  have hg : pileupGlobal (nBins b sizes) ivs = some ((List.range (total (nBins b sizes))).map
+      (fun g => (pts.filter (fun x => binIndex b sizes x.1 x.2 == g)).length)) := by
+    simp only [pileupGlobal, omap_toGlobal _ ivs hvalid, Option.some.injEq]
+    apply List.map_congr_left
+    intro g _
+    simp only [covCount, ivs, List.map_map, List.filter_map, List.length_map]
+    congr 1
+    apply List.filter_congr
+    intro x _
+    simp only [Function.comp, binIndex]
+    rw [Bool.eq_iff_iff]
+    simp only [Bool.and_eq_true, decide_eq_true_eq, beq_iff_eq]
+    omega
+  rw [hg] at hcl
+  simp only [Option.map_some, Option.some.injEq] at hcl
+  rw [binnedCounts, hcl, specBinned]
+  have hl : (nBins b sizes).length = sizes.length := by simp [nBins]
+  rw [hl]
+  apply List.map_congr_left
+  intro c _
+  rw [specPileupChrom, size_nBins b hb]
+  apply List.map_congr_left
+  intro k _
+  simp only [ivs, List.filter_map, List.length_map, List.filter_filter]
+  congr 1
+  apply List.filter_congr
+  intro x _
+  simp only [Function.comp]
+  rw [Bool.eq_iff_iff]
+  simp only [Bool.and_eq_true, decide_eq_true_eq, beq_iff_eq]
+  omega
+
+example : binnedCounts 2 [5, 4] [(0, 0), (0, 4), (1, 3)] = [[1, 0, 1], [0, 1]] := by decide
+
+/-! ### locations → intervals -/
+
+theorem drop_countLt {β} (l : List (Nat × β)) (a : Nat) (hs : l.Pairwise (fun x y => x.1 ≤ y.1)) :
+    l.drop (countLt l a) = l.filter (fun x => a ≤ x.1) := by
+  induction l with
+  | nil => rfl
+  | cons x r ih =>
+    have hs' := List.pairwise_cons.mp hs
+    by_cases hx : x.1 < a
+    · have : ¬ a ≤ x.1 := by omega
+      simp only [countLt, List.filter_cons, hx, decide_true, if_true, List.length_cons, List.drop_succ_cons, this,
+        decide_false, Bool.false_eq_true, if_false]
+      exact ih hs'.2
+    · have hall : ∀ y ∈ r, a ≤ y.1 := fun y hy => by have := hs'.1 y hy; omega
+      have h0 : countLt (x :: r) a = 0 := by
+        simp only [countLt, List.length_eq_zero_iff, List.filter_eq_nil_iff, decide_eq_true_eq]
+        intro y hy
+        rcases List.mem_cons.mp hy with rfl | hy
+        · exact hx
+        · have := hall y hy; omega
+      rw [h0, List.drop_zero]
+      symm
+      rw [List.filter_eq_self]
+      intro y hy
+      rcases List.mem_cons.mp hy with rfl | hy
+      · simp; omega
+      · simpa using hall y hy
+
+theorem take_countLt {β} (l : List (Nat × β)) (b : Nat) (hs : l.Pairwise (fun x y => x.1 ≤ y.1)) :
+    l.take (countLt l b) = l.filter (fun x => x.1 < b) := by
+  induction l with
+  | nil => rfl
+  | cons x r ih =>
+    have hs' := List.pairwise_cons.mp hs
+    by_cases hx : x.1 < b
+    · simp only [countLt, List.filter_cons, hx, decide_true, if_true, List.length_cons, List.take_succ_cons]
+      congr 1
+      exact ih hs'.2
+    · have hall : ∀ y ∈ r, ¬ y.1 < b := fun y hy => by have := hs'.1 y hy; omega
+      have hf : (x :: r).filter (fun x => decide (x.1 < b)) = [] := by
+        simp only [List.filter_eq_nil_iff, decide_eq_true_eq]
+        intro y hy
+        rcases List.mem_cons.mp hy with rfl | hy
+        · exact hx
+        · exact hall y hy
+      simp [countLt, hf]
+
+/-- on a list sorted by global position, the repaired `find_indices` picks exactly the locations in `[gs, ge)` -/
+theorem locSlice_filter (gl : List (Nat × Nat)) (gs ge : Nat) (hs : gl.Pairwise (fun x y => x.1 ≤ y.1)) (h : gs ≤ ge) :
+    locSlice false gl gs ge = gl.filter (fun x => gs ≤ x.1 && x.1 < ge) := by
+  simp only [locSlice, Bool.false_eq_true, if_false]
+  rw [← List.drop_take, take_countLt gl ge hs]
+  have hs' : (gl.filter (fun x => decide (x.1 < ge))).Pairwise (fun x y => x.1 ≤ y.1) := hs.filter _
+  have hc : countLt gl gs = countLt (gl.filter (fun x => decide (x.1 < ge))) gs := by
+    simp only [countLt, List.filter_filter]
+    congr 1
+    apply List.filter_congr
+    intro x _
+    rw [Bool.eq_iff_iff]
+    simp only [decide_eq_true_eq, Bool.and_eq_true]
+    omega
+  rw [hc, drop_countLt _ gs hs', List.filter_filter]
+
+theorem flatMap_congr' {α β} (l : List α) (f g : α → List β) (h : ∀ a ∈ l, f a = g a) : l.flatMap f = l.flatMap g := by
+  induction l with
+  | nil => rfl
+  | cons x r ih =>
+    simp only [List.flatMap_cons]
+    rw [h x (List.mem_cons_self ..), ih (fun a ha => h a (List.mem_cons_of_mem _ ha))]
+
+/-- **C10.map_locations_local** — `map_locations` (repaired `find_indices`), for intervals inside their chromosomes and locations
+given in genome order: every interval is paired with exactly the locations on its own chromosome with
+`start ≤ position < stop`, reported relative to the interval start. The shipped rule (`side="right"` for the stop) is
+refuted: an interval ending at a chromosome end captured position 0 of the next chromosome, at relative position −3. -/
+theorem map_locations_local (sizes : List Nat) (ivs : List Iv) (pts : List (Nat × Nat))
+    (hv : ∀ iv ∈ ivs, iv.valid sizes = true ∧ iv.s ≤ iv.e)
+    (hp : ∀ x ∈ pts, x.1 < sizes.length ∧ x.2 < size sizes x.1)
+    (hs : (pts.map (fun x => offset sizes x.1 + x.2)).Pairwise (· ≤ ·)) :
+    mapLocs false sizes ivs pts = some (specMapLocs ivs pts) ∧
+    mapLocs true [5, 5] [{ c := 0, s := 3, e := 5 }] [(1, 0)] = some [(0, -3)] ∧
+    specMapLocs [{ c := 0, s := 3, e := 5 }] [(1, 0)] = [] := by
+  refine ⟨?_, by decide, by decide⟩
+  have h1 : omap (fun (x : Nat × Nat) => (fromLocal sizes x.1 x.2).map (fun g => (g, x.2))) pts =
+      some (pts.map (fun x => (offset sizes x.1 + x.2, x.2))) :=
+    omap_some_map _ _ _ (fun x hx => by simp [fromLocal, hp x hx])
+  have h2 := omap_toGlobal sizes ivs (fun iv h => (hv iv h).1)
+  simp only [mapLocs, h1, h2, Option.some.injEq, specMapLocs]
+  apply flatMap_congr'
+  intro i hi
+  have hi' : i < ivs.length := List.mem_range.mp hi
+  have hget : ivs.getD i default = ivs[i] := by simp [List.getD_eq_getElem?_getD, List.getElem?_eq_getElem hi']
+  have hmem : ivs[i] ∈ ivs := List.getElem_mem hi'
+  obtain ⟨hval, hse⟩ := hv _ hmem
+  have hg : (ivs.map (fun iv => (offset sizes iv.c + iv.s, offset sizes iv.c + iv.e))).getD i (0, 0) =
+      (offset sizes ivs[i].c + ivs[i].s, offset sizes ivs[i].c + ivs[i].e) := by
+    simp [List.getD_eq_getElem?_getD, List.getElem?_map, List.getElem?_eq_getElem hi']
+  rw [hg, hget]
+  have hsorted : (pts.map (fun x => (offset sizes x.1 + x.2, x.2))).Pairwise (fun x y => x.1 ≤ y.1) := by
+    rw [List.pairwise_map] at hs ⊢
+    exact hs
+  rw [locSlice_filter _ _ _ hsorted (by simp only []; omega), List.filter_map, List.map_map]
+  have hf : pts.filter ((fun (x : Nat × Nat) => decide (offset sizes ivs[i].c + ivs[i].s ≤ x.1) && decide (x.1 < offset sizes ivs[i].c + ivs[i].e)) ∘
+        fun x => (offset sizes x.1 + x.2, x.2)) =
+      pts.filter (fun x => x.1 == ivs[i].c && decide (ivs[i].s ≤ x.2) && decide (x.2 < ivs[i].e)) := by
+    apply List.filter_congr
+    intro x hx
+    obtain ⟨hx1, hx2⟩ := hp x hx
+    have := covers_iff sizes ivs[i] x.1 x.2 hval hx1 hx2
+    simp only [Function.comp]
+    rw [Bool.eq_iff_iff]
+    simp only [Bool.and_eq_true, decide_eq_true_eq, beq_iff_eq]
+    rw [this]
+    constructor
+    · intro ⟨a, b, c⟩; exact ⟨⟨a.symm, b⟩, c⟩
+    · intro ⟨⟨a, b⟩, c⟩; exact ⟨a.symm, b, c⟩
+  rw [hf]
+  rfl
+
+example : (([(0, 3), (0, 4), (1, 0)] : List (Nat × Nat)).map (fun x => offset [5, 5] x.1 + x.2)).Pairwise (· ≤ ·) := by decide
+
+/-! ### sorted locations -/
+
+theorem locLe_trans (a b c : Nat × Nat) (h1 : locLe a b = true) (h2 : locLe b c = true) : locLe a c = true := by
+  simp only [locLe, Bool.or_eq_true, Bool.and_eq_true, decide_eq_true_eq, beq_iff_eq] at *
+  omega
+
+theorem locLe_total (a b : Nat × Nat) : (locLe a b || locLe b a) = true := by
+  simp only [locLe, Bool.or_eq_true, Bool.and_eq_true, decide_eq_true_eq, beq_iff_eq]
+  omega
+
+/-- **C10.sort_locs_genome_order** — `GenomicLocation.sorted()` is a permutation in genome order (chromosome index, then
+position) and is idempotent. -/
+theorem sort_locs_genome_order (pts : List (Nat × Nat)) :
+    (sortLocs pts).Perm pts ∧
+    (sortLocs pts).Pairwise (fun a b => a.1 < b.1 ∨ (a.1 = b.1 ∧ a.2 ≤ b.2)) ∧
+    sortLocs (sortLocs pts) = sortLocs pts := by
+  have hs : (sortLocs pts).Pairwise (fun a b => locLe a b = true) := List.pairwise_mergeSort locLe_trans locLe_total pts
+  refine ⟨List.mergeSort_perm pts locLe, ?_, List.mergeSort_of_pairwise hs⟩
+  apply hs.imp
+  intro a b h
+  simp only [locLe, Bool.or_eq_true, Bool.and_eq_true, decide_eq_true_eq, beq_iff_eq] at h
+  exact h
+
+/-! ### completeness (`…_none_iff`), pinning of `searchsorted`, idempotence -/
+
+/-- **C10.pileup_none_iff** — completeness: pile-up, mask and value extraction fail exactly when some entry does not lie
+inside its chromosome (and never otherwise). -/
+theorem pileup_none_iff (sizes : List Nat) (ivs : List Iv) :
+    (pileupGlobal sizes ivs = none ↔ ∃ iv ∈ ivs, iv.valid sizes = false) ∧
+    (maskGlobal sizes ivs = none ↔ ∃ iv ∈ ivs, iv.valid sizes = false) ∧
+    (∀ {α} (dense : List α) (stranded : Bool) (iv : Iv), extractRow sizes dense stranded iv = none ↔ iv.valid sizes = false) := by
+  have key : omap (toGlobal sizes) ivs = none ↔ ∃ iv ∈ ivs, iv.valid sizes = false := by
+    have h := omap_isSome_iff (toGlobal sizes) ivs
+    constructor
+    · intro hn
+      refine Classical.byContradiction fun hne => ?_
+      have : (omap (toGlobal sizes) ivs).isSome = true := h.mpr (fun iv hiv => by
+        have : iv.valid sizes = true := by
+          cases hv : iv.valid sizes with
+          | true => rfl
+          | false => exact absurd ⟨iv, hiv, hv⟩ hne
+        simp [toGlobal, this])
+      rw [hn] at this; simp at this
+    · intro ⟨iv, hiv, hv⟩
+      cases ho : omap (toGlobal sizes) ivs with
+      | none => rfl
+      | some gs =>
+        have := h.mp (by rw [ho]; rfl) iv hiv
+        simp [toGlobal, hv] at this
+  refine ⟨?_, ?_, ?_⟩
+  · simp only [pileupGlobal]
+    cases ho : omap (toGlobal sizes) ivs with
+    | none => simp [← key, ho]
+    | some gs => simp [← key, ho]
+  · simp only [maskGlobal]
+    cases ho : omap (toGlobal sizes) ivs with
+    | none => simp [← key, ho]
+    | some gs => simp [← key, ho]
+  · intro α dense stranded iv
+    simp only [extractRow, toGlobal]
+    cases iv.valid sizes <;> simp
+
+theorem offsets_sorted (sizes : List Nat) : (offsets sizes).Pairwise (· ≤ ·) := by
+  induction sizes with
+  | nil => simp [offsets]
+  | cons s ss ih =>
+    simp only [offsets, List.pairwise_cons, List.mem_map, forall_exists_index, and_imp, forall_apply_eq_imp_iff₂]
+    refine ⟨fun a _ => Nat.zero_le _, ?_⟩
+    rw [List.pairwise_map]
+    exact ih.imp (fun h => by omega)
+
+theorem takeWhile_eq_filter_sorted (l : List Nat) (g : Nat) (hs : l.Pairwise (· ≤ ·)) :
+    l.takeWhile (· ≤ g) = l.filter (· ≤ g) := by
+  induction l with
+  | nil => rfl
+  | cons x r ih =>
+    have hs' := List.pairwise_cons.mp hs
+    by_cases hx : x ≤ g
+    · simp [List.takeWhile_cons, List.filter_cons, hx, ih hs'.2]
+    · have : r.filter (· ≤ g) = [] := by
+        simp only [List.filter_eq_nil_iff, decide_eq_true_eq]
+        intro y hy; have := hs'.1 y hy; omega
+      simp [List.takeWhile_cons, List.filter_cons, hx, this]
+
+/-- **C10.searchsorted_is_count** — the model of `np.searchsorted(self._offset, g, side="right")` is pinned by a
+standard notion: on the (sorted) offsets it is the number of offsets `≤ g`, and the offsets are the prefix sums
+`(sizes.take c).sum`. -/
+theorem searchsorted_is_count (sizes : List Nat) (g : Nat) :
+    searchsortedRight (offsets sizes) g = ((offsets sizes).filter (· ≤ g)).length ∧
+    (offsets sizes).Pairwise (· ≤ ·) ∧
+    (∀ c, c ≤ sizes.length → offset sizes c = (sizes.take c).sum) := by
+  refine ⟨?_, offsets_sorted sizes, fun c hc => offset_eq_spec sizes c hc⟩
+  rw [searchsortedRight, takeWhile_eq_filter_sorted _ _ (offsets_sorted sizes)]
+
+/-- **C10.sort_idempotent** — sorting sorted intervals changes nothing. -/
+theorem sort_idempotent (ivs : List Iv) : sortGenome (sortGenome ivs) = sortGenome ivs :=
+  List.mergeSort_of_pairwise (List.pairwise_mergeSort keyLe_trans keyLe_total ivs)
+
 
 end C10
